@@ -7,7 +7,8 @@ for s in ${SUITES:-ed25519 ristretto255 ed448 p256 secp256k1 secp256k1-tr}; do
 import json
 d=json.load(open('/verif/run/dev/$P.$s.0.json'))
 c=d['counts']
-print('  items',d['items_total'],'classes',len(d['classes']),'viol',d['violation_count'], {k:v for k,v in list(c.items())[:40]})
-for v in d['violations'][:4]: print('   V',v['signature'],v['desc'],json.dumps(v['detail'])[:400])
+print('  items',d['items_total'],'classes',len(d['classes']),'viol',d['violation_count'], str({k:v for k,v in list(c.items())})[:${W:-600}])
+print('  sigs', d['viol_per_sig'])
+for v in d['violations'][:${NV:-2}]: print('   V',v['signature'],v['desc'],json.dumps(v['detail'])[:500])
 PY
 done
